@@ -285,12 +285,14 @@ def grammar_obligations(prop, tier, seed):
             elif want == 'nonlalr':
                 # no LALR(1) action keeps every derivable sentence: record which one the table keeps
                 info['kept'] = str(pa_n)
-                o = ob(name + ' keeps-every-derivable-sentence', ['C06'], False, info)
+                o = ob(name + ' keeps-every-derivable-sentence', ['C06', 'C15', 'C07'], False, info)
             else:
                 ok = (pa_n == (want if want == 'error' else want))
                 # the suffix forms x.f(a) / x | f(a) and the trailing comma are surface syntax (C15)
                 surface = a in ('COMMA', 'DOT', 'PIPE') or any(c[0] == 'reduce' and set(g.prods[c[1]][1]) & {'DOT', 'PIPE'} for c in cands)
-                o = ob(name, ['C06', 'C15'] if surface else ['C06'], ok, info)
+                arith = {'PLUS', 'MINUS', 'TIMES', 'DIVIDE', 'POWER'}
+                arithmetic = a in arith and any(c[0] == 'reduce' and set(g.prods[c[1]][1]) & arith for c in cands)
+                o = ob(name, ['C06', 'C07'] + (['C15'] if surface else []) + (['C08', 'C04'] if arithmetic else []), ok, info)
             obs.append(o)
         import hashlib
         hh = hashlib.sha256(kernel_name(lalr, s).encode()).hexdigest()[:6]
@@ -335,4 +337,4 @@ def grammar_obligations(prop, tier, seed):
     return obs, info
 
 
-extras.register(['C06', 'C15'], grammar_obligations)
+extras.register(['C06', 'C15', 'C07', 'C08', 'C04'], grammar_obligations)
